@@ -289,8 +289,10 @@ func TestVerif_C13_RefCount(t *testing.T) {
 				if reading[h] != nil {
 					r, _ := waitRes(reading[h], where)
 					reading[h] = nil
-					if !errors.Is(r.err, io.ErrClosedPipe) {
-						st.Fail(rt, "C13/refcount/pending-read-on-closed-handle", "%s: pending read of the closed handle returned %d, %v (want io.ErrClosedPipe)", where, r.n, r.err)
+					// "fails that handle's pending I/O": any error will do — when the last handle goes, the read may see
+					// the end of the underlying connection (io.EOF) before it sees its own cancellation (io.ErrClosedPipe)
+					if r.err == nil || (!errors.Is(r.err, io.ErrClosedPipe) && nOpen() > 0) {
+						st.Fail(rt, "C13/refcount/pending-read-on-closed-handle", "%s: pending read of the closed handle returned %d, %v (want an error; io.ErrClosedPipe while siblings are open)", where, r.n, r.err)
 					}
 				}
 				if nOpen() == 0 {
